@@ -187,6 +187,8 @@ macro_rules! entry2d_case {
                     let mut q2 = qx.clone();
                     *q2.iter_mut().nth(k).unwrap() = var("qbad_hi", xn + 1.0);
                     ck(checks, format!("C05:{tag}:batch-error-x[pos={k}]"), matches!(interp.interp_array(&q2, &qy), Err(InterpolateError::OutOfBounds(_))), String::new());
+                    let any_single_err = q2.iter().zip(qy.iter()).any(|(a, b)| interp.interp(*a, *b).is_err());
+                    ck(checks, format!("C09:{tag}:error-agreement[pos={k}]"), interp.interp_array(&q2, &qy).is_err() == any_single_err, String::new());
                     let mut q3 = qy.clone();
                     *q3.iter_mut().nth(k).unwrap() = var("qbad_lo", y0 - 1.0);
                     ck(checks, format!("C05:{tag}:batch-error-y[pos={k}]"), matches!(interp.interp_array(&qx, &q3), Err(InterpolateError::OutOfBounds(_))), String::new());
